@@ -212,7 +212,7 @@ fn code_blob(which: u64) -> &'static [u8] {
     &blobs[(which as usize) % blobs.len()]
 }
 
-pub const INPUT_CLASSES: &[&str] = &["empty", "const", "periodic", "random", "mixed", "text", "code", "counter", "incomp_then_comp", "far_repeat", "zero", "lowent", "copies", "sandwich", "x86soup", "mutperiod"];
+pub const INPUT_CLASSES: &[&str] = &["empty", "const", "periodic", "random", "mixed", "text", "code", "counter", "incomp_then_comp", "far_repeat", "zero", "lowent", "copies", "sandwich", "x86soup", "mutperiod", "stop_lookahead"];
 
 impl InputSpec {
     pub fn new(class: &str, len: usize, seed: u64) -> Self {
@@ -237,6 +237,46 @@ impl InputSpec {
                 }
             }
             "random" => rng.fill(&mut out),
+            "stop_lookahead" => {
+                // Match-free data (every pair of bytes occurs once per 64 KiB: a de Bruijn
+                // sequence of order 2, so an encoder with a smaller dictionary codes literals
+                // only and reaches every position without overshooting) with three planted
+                // matches around position p2: forty bytes before it a match of length 8 at
+                // distance p1 (the dictionary size: the largest distance there is; it stays
+                // rep0 while only literals follow), and at p2 a match of length 3 followed at
+                // p2 + 1 by one of length 6, so that a lazy matcher codes p2 as a literal and
+                // keeps the matches of p2 + 1 for its next call. If the encoder runs out of
+                // input exactly there, its look-ahead is outstanding across the window move.
+                let mut cycle = Vec::with_capacity(65536);
+                for a in 0..=255u8 {
+                    cycle.push(a);
+                    for b in (a as u16 + 1)..=255 {
+                        cycle.push(a);
+                        cycle.push(b as u8);
+                    }
+                }
+                let rot = (self.seed % 65536) as usize;
+                for (i, b) in out.iter_mut().enumerate() {
+                    *b = cycle[(i + rot) % cycle.len()];
+                }
+                let d = self.p1 as usize;
+                let p = self.p2 as usize;
+                if d >= 1 && p >= d + 400 && p + 8 <= n {
+                    let q = p - 40;
+                    for i in 0..8 {
+                        out[q + i] = out[q - d + i];
+                    }
+                    let (x, y, z) = (out[p - 400], out[p - 399], out[p - 398]);
+                    out[p - 150] = y;
+                    out[p - 149] = z;
+                    out[p] = x;
+                    out[p + 1] = y;
+                    out[p + 2] = z;
+                    for i in 0..4 {
+                        out[p + 3 + i] = out[p - 148 + i];
+                    }
+                }
+            }
             "mutperiod" => {
                 // a random block of p1 bytes repeated (every position has a match at distance
                 // p1, typically the dictionary size: the largest distance there is), with single
